@@ -748,3 +748,738 @@ def bandwidth(case, ctx):
     if not amb and not amb2:
         ctx.check(float(lo_lim[1][0]) <= float(hi_lim[1][0]) and float(lo_lim[1][1]) >= float(hi_lim[1][1]),
                   "band at the lower threshold %r is not a superset of the band at %r" % (lo_lim, hi_lim))
+
+
+# ---------------------------------------------------------------------------
+# mid-range sizes (notes/brief_midrange.md): record lengths 2e3..3e5, 1..5000 smoothing targets, products n_f x m of
+# 1e5..3e7, the square default-target matrix up to n_f ~ 4000; option crosses; histories at mid-range size.
+#
+# Every case is a record (seeded noise x envelope + sine + offset; no zero stretch) whose library FAS is the spectrum
+# (taken as given: C06), on the default power-of-two padding or on an explicit transform length N (gen_fa_spectrum(n=N),
+# so n_f = N/2 - 1 is arbitrary).  Oracle in two layers (pbt/ref/ko_mid.py): a float64 per-target evaluation of the
+# statement for ALL targets (and all matrix entries), and the long-double reference of pbt/ref/ko.py on a hash-chosen
+# sample of targets, which also guards the float64 layer.
+
+import hashlib  # noqa: E402
+
+from pbt.core import enum_clause, Inconclusive  # noqa: E402
+from pbt.ref import ko_mid as refm  # noqa: E402
+
+ASSUMPTIONS += [
+    "mid-range clauses: the spectrum is the library's FAS (complex, with its 0 Hz bin; correctness is C06) of a seeded record "
+    "(standard normal noise x a nowhere-zero envelope + a sine + a non-zero offset, scaled by 10^-2..10^2), time step from "
+    "{0.0025, 0.004, 0.005, 0.01, 0.02}; the transform length is the default power-of-two padding or an explicit even N >= npts "
+    "set with gen_fa_spectrum(n=N) BEFORE the first smoothing read (the smoothed-spectrum cache is not tied to the Fourier "
+    "cache by an explicit gen_fa_spectrum: not part of this statement, not asserted)",
+    "mid-range targets: ascending (or a permutation of an ascending set), log- or linearly spaced from up to 0.3 decades inside to "
+    "0.5 decades outside either end of the non-zero Fourier grid, every fourth one moved exactly onto a grid frequency and every "
+    "sixteenth one 1 ulp above one; a random multiset of grid frequencies; the default (None = the Fourier frequencies); the "
+    "object's default 50 points on [0.1, 30] Hz",
+    "mid-range tolerance: rel(n_f) = 1e-12 + 2 (n_f + 64) eps relative (any-order summation of n_f non-negative terms: see "
+    "pbt/ref/ko_mid.py) plus the conditioning bound; library vs the float64 all-target evaluation: twice that (both are double "
+    "evaluations); the float64 layer itself must agree with the long-double sample to 1e-12 relative + conditioning bound, "
+    "otherwise exit 2",
+    "mid-range bandwidth checks only on ascending target sets (as clause `bandwidth`)",
+]
+
+_MID_DTS = [0.0025, 0.004, 0.005, 0.01, 0.02]
+_MID_BANDS = [40, 40, 20, 67.5, 5, 100, 31, 12.25]
+_LD_BUDGET = 1.2e6   # long-double pair evaluations per reference call (~0.3 s)
+
+
+def _hh(*parts):
+    return int(hashlib.blake2b(":".join(str(p) for p in parts).encode(), digest_size=8).hexdigest(), 16)
+
+
+def _hu(*parts):
+    return (_hh(*parts) % 10 ** 6) / 1e6
+
+
+def _hint(lo, hi, *parts):
+    """log-uniform integer in [lo, hi] by hash."""
+    lo, hi = int(lo), int(hi)
+    if hi <= lo:
+        return lo
+    return min(hi, max(lo, int(math.exp(math.log(lo) + (math.log(hi + 1) - math.log(lo)) * _hu(*parts)))))
+
+
+def _mid_seed(tag, i):
+    return _hh(gen.run_seed(), tag, i) % (2 ** 31 - 1)
+
+
+def _mid_record(npts, seed):
+    rs = np.random.RandomState(seed)
+    t = (np.arange(npts) + 1.0) / npts
+    env = 0.15 + 1.8 * (4 * t) ** 2 * np.exp(-4 * t)
+    x = rs.standard_normal(npts) * env + 0.3 * np.sin(2 * math.pi * (5 + seed % 23) * t + 0.7) + 0.05
+    return x * 10.0 ** (seed % 5 - 2)
+
+
+def _mid_targets(fpos, m, seed, style):
+    rs = np.random.RandomState((seed ^ 0x5BD1E995) % (2 ** 31 - 1))
+    nf = len(fpos)
+    if style == "grid":
+        return np.array(fpos[np.sort(rs.randint(0, nf, m))], dtype=float)
+    u1, u2 = rs.uniform(-0.3, 0.5, 2)
+    a = math.log10(fpos[0]) - u1
+    b = max(a + 0.05, math.log10(fpos[-1]) + u2)
+    if m == 1:
+        t = np.array([10.0 ** (a + rs.uniform() * (b - a))])
+    elif style == "lin":
+        t = np.linspace(10.0 ** a, 10.0 ** b, m)
+    else:
+        t = np.logspace(a, b, m)
+    k = int(rs.randint(0, 4))
+    sel = np.arange(k, m, 4)
+    t[sel] = fpos[np.clip(np.searchsorted(fpos, t[sel]), 0, nf - 1)]
+    sel = np.arange((k + 2) % 4, m, 16)
+    t[sel] = np.nextafter(fpos[np.clip(np.searchsorted(fpos, t[sel]), 0, nf - 1)], np.inf)
+    t = np.sort(t)
+    if style == "shuffled":
+        rs.shuffle(t)
+    return np.array(t, dtype=float)
+
+
+def _mid_signal(ctx, case, x=None, **kw):
+    x = _mid_record(case["npts"], case["seed"]) if x is None else x
+    cls = eqsig.AccSignal if case.get("acc") else eqsig.Signal
+    sig = ctx.lib(cls, x, case["dt"], **kw)
+    if case.get("nfft"):
+        ctx.lib(sig.gen_fa_spectrum, n=case["nfft"])
+    return x, sig
+
+
+def _mid_fas(ctx, sig, case):
+    freqs = np.array(ctx.lib(lambda: sig.fa_freqs), dtype=float)
+    spec = np.array(ctx.lib(lambda: sig.fa_spectrum))
+    want = case["nfft"] // 2 if case.get("nfft") else None
+    ctx.check(freqs.ndim == 1 and spec.shape == freqs.shape and len(freqs) >= 2 and freqs[0] == 0 and bool(np.all(np.diff(freqs) > 0))
+              and (want is None or len(freqs) == want), "Fourier spectrum of the record is not a one-sided spectrum on an ascending grid from 0 Hz "
+              "(%d bins)" % len(freqs))
+    return freqs, spec
+
+
+class _Ref(object):
+    pass
+
+
+def _mid_reference(freqs, spec, targets, b, key, mat_t=None, ld_count=None):
+    """Float64 evaluation for all targets + long-double sample; the former is guarded by the latter (HarnessError)."""
+    r = _Ref()
+    nf = len(freqs) - (1 if freqs[0] == 0 else 0)
+    m = len(targets)
+    r.nf, r.m = nf, m
+    r.sc = refm.scan(freqs, spec, targets, b, mat_t=mat_t)
+    r.rel = r.sc.rel
+    if ld_count is None:
+        ld_count = int(min(40, max(6, _LD_BUDGET // nf)))
+    r.idx = np.array(refm.sample_indices(m, ld_count, key), dtype=int)
+    s_ld, cond = ref.smooth(freqs, spec, targets[r.idx], b)
+    r.s_ld, r.cond_ld = s_ld, cond
+    s_f = np.asarray(s_ld, dtype=float)
+    off = np.abs(r.sc.S[r.idx].astype(LD) - s_ld)
+    if not bool(np.all(off <= REL * s_f + cond + 1e-290)):
+        j = int(np.argmax(off - (REL * s_f + cond)))
+        raise HarnessError("float64 all-target evaluation disagrees with the long-double reference: target %d (%r Hz), %r vs %r" % (
+            int(r.idx[j]), float(targets[r.idx[j]]), float(r.sc.S[r.idx[j]]), float(s_ld[j])))
+    apos = np.abs(np.asarray(spec))[1:] if freqs[0] == 0 else np.abs(np.asarray(spec))
+    r.lo, r.hi = float(np.min(apos)), float(np.max(apos))
+    return r
+
+
+def _mid_check_smooth(ctx, got, r, what):
+    got = np.asarray(got)
+    ctx.check(not np.iscomplexobj(got), "%s: complex result" % what)
+    ctx.shape(got, (r.m,), what)
+    ctx.finite(got, what)
+    s_f = np.asarray(r.s_ld, dtype=float)
+    ctx.close(got[r.idx], r.s_ld, r.rel * s_f + r.cond_ld, what + " vs long-double weighted mean (sampled targets %s...)" % r.idx[:6].tolist())
+    ctx.close(got, r.sc.S, 2.0 * (r.rel * r.sc.S + r.sc.cond), what + " vs per-target evaluation of the weighted mean (all %d targets)" % r.m)
+    ctx.check(bool(np.all(got >= r.lo * (1 - r.rel)) and np.all(got <= r.hi * (1 + r.rel))),
+              "%s: smoothed amplitude outside [min|A|, max|A|] = [%r, %r]: min %r max %r" % (what, r.lo, r.hi, float(np.min(got)), float(np.max(got))))
+
+
+def _mid_check_matrix(ctx, mat, freqs, spec, targets, b, key, what):
+    """All entries of the library matrix against the per-target evaluation, a sample of columns against long double.
+    returns the reference pack (with the smoothed spectrum for the same targets)."""
+    nf = len(freqs) - (1 if freqs[0] == 0 else 0)
+    m = len(targets)
+    mat = np.asarray(mat)
+    ctx.shape(mat, (nf, m), what)
+    ctx.check(mat.dtype.kind == "f", "%s: dtype %s" % (what, mat.dtype))
+    try:
+        mat_t = np.ascontiguousarray(mat.T, dtype=float)
+    except MemoryError:
+        raise Inconclusive("out of memory transposing the smoothing matrix")
+    ctx.check(bool(np.isfinite(np.sum(mat_t))), "%s: non-finite entries" % what)
+    r = _mid_reference(freqs, spec, targets, b, key, mat_t=mat_t)
+    sc = r.sc
+    ctx.check(float(np.min(sc.colmin)) >= 0, "%s: negative weight %r (column %d)" % (what, float(np.min(sc.colmin)), int(np.argmin(sc.colmin))))
+    ctx.close(sc.colsum, np.ones(m), r.rel, "%s: column sums" % what)
+    if sc.bad is not None:
+        i, j, g, e, tl, cnt = sc.bad
+        ctx.fail("%s: entry [%d, %d] (f=%r, fc=%r) = %r, w/sum w = %r (tol %.3g; %d entries of that column out)" % (
+            what, i, j, float(freqs[-nf:][i]), float(targets[j]), g, e, tl, cnt))
+    kcols = int(min(len(r.idx), max(2, 4e5 // nf)))
+    cols = r.idx[np.unique(np.linspace(0, len(r.idx) - 1, kcols).astype(int))]
+    w_ref, w_tol, colsum = ref.matrix(freqs, targets[cols], b)
+    sub = mat[:, cols]
+    ctx.close(sub, w_ref, r.rel * np.asarray(w_ref, dtype=float) + w_tol, "%s: entries vs long-double w_ij / sum_i w_ij (columns %s)" % (what, cols[:6].tolist()))
+    fpos = freqs[-nf:]
+    for q, j in enumerate(cols):
+        hit = np.flatnonzero(fpos == targets[j])
+        if len(hit):
+            i = int(hit[0])
+            ctx.check(bool(np.all(sub[:, q] <= sub[i, q] * (1 + 16 * EPS))), "%s: column %d: an entry exceeds the weight at f == fc" % (what, int(j)))
+    del mat_t
+    return r
+
+
+def _mid_limits_check(ctx, freqs, sm, fmin, fmax, lim, what):
+    got = _limits(sm, freqs, lim)
+    ctx.check(got is not None, "%s: reference finds no amplitude above the threshold" % what)
+    amb, (a0, a1), (b0, b1) = got
+    fmin, fmax = float(fmin), float(fmax)
+    f_peak = float(freqs[int(np.argmax(sm))])
+    ctx.check(fmin <= fmax, "%s: limits not ordered: f_min=%r > f_max=%r" % (what, fmin, fmax))
+    ctx.check(fmin <= f_peak <= fmax, "%s: limits (%r, %r) do not bracket the smoothed peak at %r Hz" % (what, fmin, fmax, f_peak))
+    ctx.check(bool(np.any(freqs == fmin)) and bool(np.any(freqs == fmax)), "%s: limits (%r, %r) are not members of smooth_fa_freqs" % (what, fmin, fmax))
+    outside = (freqs < fmin) | (freqs > fmax)
+    if np.any(outside):
+        worst = float(np.max(sm[outside]))
+        ctx.check(worst <= lim * (1 + MARGIN), "%s: a frequency outside [%r, %r] has smoothed amplitude %r > threshold %r" % (what, fmin, fmax, worst, lim))
+    for name, fv in (("f_min", fmin), ("f_max", fmax)):
+        at = float(np.max(sm[freqs == fv]))
+        ctx.check(at > lim * (1 - MARGIN), "%s: amplitude %r at %s=%r does not exceed the threshold %r" % (what, at, name, fv, lim))
+    if amb:
+        ctx.amb()
+        ctx.check(freqs[a0] <= fmin <= freqs[a1], "%s: f_min=%r outside bracket [%r, %r]" % (what, fmin, freqs[a0], freqs[a1]))
+        ctx.check(freqs[b0] <= fmax <= freqs[b1], "%s: f_max=%r outside bracket [%r, %r]" % (what, fmax, freqs[b0], freqs[b1]))
+    else:
+        ctx.check(fmin == freqs[a1], "%s: f_min=%r, first frequency above the threshold is %r (index %d of %d)" % (what, fmin, freqs[a1], a1, len(freqs)))
+        ctx.check(fmax == freqs[b0], "%s: f_max=%r, last frequency above the threshold is %r (index %d of %d)" % (what, fmax, freqs[b0], b0, len(freqs)))
+
+
+def _mid_bandwidth(ctx, asig, key):
+    """Bandwidth limits of the object's smoothed spectrum (ascending smoothing frequencies) at three ratios < 1 and two > 1."""
+    freqs = np.array(ctx.lib(lambda: asig.smooth_fa_frequencies), dtype=float)
+    sm = np.array(ctx.lib(lambda: asig.smooth_fa_spectrum), dtype=float)
+    if len(freqs) < 1 or not np.all(np.diff(freqs) >= 0) or not float(np.max(sm)) > 0:
+        return
+    ctx.cls("bandwidth-checked")
+    mx = float(np.max(sm))
+    for ratio in (0.707, 0.5, round(0.05 + 0.93 * _hu(key, "ratio"), 6)):
+        both = ctx.lib(im.calc_bandwidth_freqs, asig, ratio=ratio)
+        ctx.check(isinstance(both, (tuple, list, np.ndarray)) and len(both) == 2, "calc_bandwidth_freqs returned %r" % (both,))
+        _mid_limits_check(ctx, freqs, sm, both[0], both[1], ratio * mx, "calc_bandwidth_freqs(ratio=%r), %d smoothing frequencies" % (ratio, len(freqs)))
+        fmin = ctx.lib(im.calc_bandwidth_f_min, asig, ratio=ratio)
+        fmax = ctx.lib(im.calc_bandwidth_f_max, asig, ratio=ratio)
+        ctx.check(float(fmin) == float(both[0]) and float(fmax) == float(both[1]),
+                  "calc_bandwidth_f_min / f_max (%r, %r) != calc_bandwidth_freqs %r (ratio=%r, %d smoothing frequencies)" % (fmin, fmax, both, ratio, len(freqs)))
+        if ratio == 0.707:
+            d = ctx.lib(im.calc_bandwidth_freqs, asig)
+            ctx.check(float(d[0]) == float(both[0]) and float(d[1]) == float(both[1]), "default ratio of calc_bandwidth_freqs is not 0.707")
+        if ratio == 0.5:
+            r2 = ctx.lib(fq.get_sig_freq_range, asig, ratio=2.0)
+            ctx.check(float(r2[0]) == float(both[0]) and float(r2[1]) == float(both[1]),
+                      "get_sig_freq_range(ratio=2) %r != calc_bandwidth_freqs(ratio=0.5) %r" % (r2, both))
+    for big in (15, round(1.05 * 50.0 ** _hu(key, "big"), 6)):
+        rng = ctx.lib(fq.get_sig_freq_range, asig, ratio=big)
+        ctx.check(np.shape(rng) == (2,), "get_sig_freq_range returned %r" % (rng,))
+        _mid_limits_check(ctx, freqs, sm, rng[0], rng[1], mx / big, "get_sig_freq_range(ratio=%r), %d smoothing frequencies" % (big, len(freqs)))
+        idx = ctx.lib(fq.get_sig_array_indexes_range, sm, ratio=big)
+        ctx.check(len(idx) == 2 and freqs[int(idx[0])] == float(rng[0]) and freqs[int(idx[1])] == float(rng[1]),
+                  "get_sig_array_indexes_range %r does not index get_sig_freq_range %r" % (idx, rng))
+        if big == 15:
+            d = ctx.lib(fq.get_sig_freq_range, asig)
+            ctx.check(float(d[0]) == float(rng[0]) and float(d[1]) == float(rng[1]), "default ratio of get_sig_freq_range is not 15")
+
+
+_DIRECT_FORMS = ["D", "O-set", "Dpos", "O-ctor", "alias", "O-gen"]
+
+
+def _mid_direct(ctx, form, case, x, sig, freqs, spec, targets, b, zero, default_targets=False):
+    """One 'direct-form' entry point -> (smoothed spectrum, object or None).  targets: ndarray (never None); with
+    default_targets the array-level functions get None / nothing and the object gets the Fourier frequencies."""
+    f_in, s_in = (freqs, spec) if zero else (freqs[1:], spec[1:])
+    t_in = None if default_targets else np.array(targets)
+    ctx.cls("form=" + form)
+    if form == "D":
+        if default_targets and b == 40 and case.get("omit_band"):
+            return ctx.lib(fq.calc_smooth_fa_spectrum, f_in, s_in), None
+        if default_targets:
+            return ctx.lib(fq.calc_smooth_fa_spectrum, f_in, s_in, band=b), None
+        if b == 40 and case.get("omit_band"):
+            return ctx.lib(fq.calc_smooth_fa_spectrum, f_in, s_in, t_in), None
+        return ctx.lib(fq.calc_smooth_fa_spectrum, f_in, s_in, t_in, band=b), None
+    if form == "Dpos":
+        return ctx.lib(fq.calc_smooth_fa_spectrum, f_in, s_in, t_in, b), None
+    if form == "alias":
+        if b == 40 and case.get("omit_band"):
+            return ctx.lib(fq.generate_smooth_fa_spectrum, t_in, f_in, s_in), None
+        return ctx.lib(fq.generate_smooth_fa_spectrum, t_in, f_in, s_in, band=b), None
+    t_obj = np.array(targets)
+    if form == "O-ctor":
+        _, o = _mid_signal(ctx, case, x, smooth_fa_freqs=t_obj)
+        if not (b == 40 and case.get("omit_band")):
+            ctx.lib(o.gen_smooth_fa_spectrum, band=b)
+    elif form == "O-set":
+        _, o = _mid_signal(ctx, case, x)
+        if case["seed"] % 2:
+            ctx.lib(setattr, o, "smooth_fa_freqs", t_obj)
+        else:
+            ctx.lib(setattr, o, "smooth_fa_frequencies", t_obj)
+        if not (b == 40 and case.get("omit_band")):
+            ctx.lib(o.generate_smooth_fa_spectrum, band=b)
+    elif form == "O-gen":
+        _, o = _mid_signal(ctx, case, x)
+        if case["seed"] % 2:
+            ctx.lib(o.gen_smooth_fa_spectrum, t_obj, b)
+        else:
+            ctx.lib(o.gen_smooth_fa_spectrum, smooth_fa_freqs=t_obj, band=b)
+    else:
+        raise ValueError(form)
+    got = ctx.lib(lambda: o.smooth_fa_spectrum)
+    ctx.equal(np.asarray(ctx.lib(lambda: o.smooth_fa_freqs)), targets, "smooth_fa_freqs of the object (%s)" % form)
+    ctx.equal(np.asarray(o.fa_spectrum), spec, "fa_spectrum of a second object from the same record")
+    return got, o
+
+
+def _mid_classes(ctx, case, nf, m):
+    p = nf * m
+    ctx.nt(True)
+    ctx.cls("kind=" + case["kind"], "P<1e6" if p < 1e6 else ("P<5e6" if p < 5e6 else ("P<1.5e7" if p < 1.5e7 else "P>=1.5e7")),
+            "nf<4096" if nf < 4096 else ("nf<32768" if nf < 32768 else "nf>=32768"),
+            "m<64" if m < 64 else ("m<1000" if m < 1000 else "m>=1000"))
+
+
+def _mid_eval(case, ctx):
+    """Generic mid-range case: record -> FAS -> targets -> every requested entry point against the two-layer reference."""
+    x, sig = _mid_signal(ctx, case)
+    freqs, spec = _mid_fas(ctx, sig, case)
+    fpos = freqs[1:]
+    nf = len(fpos)
+    default_targets = case.get("m") is None
+    targets = np.array(fpos) if default_targets else _mid_targets(fpos, case["m"], case["seed"], case.get("tstyle", "log"))
+    m = len(targets)
+    b = case["b"]
+    zero = bool(case.get("zero", True))
+    key = "%s:%s" % (gen.run_seed(), case["seed"])
+    _mid_classes(ctx, case, nf, m)
+    ctx.cls("targets=" + ("default" if default_targets else case.get("tstyle", "log")), "zero-bin" if zero else "no-zero-bin")
+    if np.any(np.isin(targets, fpos)):
+        ctx.cls("on-grid")
+    spec_before, freqs_before, t_before = np.array(spec), np.array(freqs), np.array(targets)
+    forms = case["forms"]
+    r = None
+    f_in = freqs if zero else fpos
+    if "M" in forms:
+        ctx.cls("form=M")
+        t_in = None if default_targets else targets
+        if default_targets and b == 40 and case.get("omit_band"):
+            mat = ctx.lib(fq.calc_smoothing_matrix_konno_1998, f_in)
+        elif case["seed"] % 3 == 0:
+            mat = ctx.lib(fq.calc_smoothing_matrix_konno_1998, f_in, t_in, b)
+        elif default_targets:
+            mat = ctx.lib(fq.calc_smoothing_matrix_konno_1998, f_in, band=b)
+        else:
+            mat = ctx.lib(fq.calc_smoothing_matrix_konno_1998, f_in, t_in, band=b)
+        r = _mid_check_matrix(ctx, mat, freqs, spec, targets, b, key, "smoothing matrix (%d x %d)" % (nf, m))
+        if "C" in forms:
+            ctx.cls("form=C")
+            via = ctx.lib(fq.calc_smooth_fa_spectrum_w_custom_matrix, sig, mat)
+            _mid_check_smooth(ctx, via, r, "matrix form (%d x %d)" % (nf, m))
+        del mat
+    if r is None:
+        r = _mid_reference(freqs, spec, targets, b, key)
+    obj = None
+    for form in forms:
+        if form in ("M", "C"):
+            continue
+        got, o = _mid_direct(ctx, form, case, x, sig, freqs, spec, targets, b, zero, default_targets)
+        _mid_check_smooth(ctx, got, r, "%s (%d Fourier frequencies x %d targets, band=%r)" % (
+            {"D": "calc_smooth_fa_spectrum", "Dpos": "calc_smooth_fa_spectrum", "alias": "generate_smooth_fa_spectrum"}.get(form, "Signal.smooth_fa_spectrum [%s]" % form), nf, m, b))
+        obj = o if o is not None else obj
+    if case.get("const") and not default_targets:
+        c = 10.0 ** (case["seed"] % 7 - 3) * 1.7
+        ph = np.exp(1j * np.random.RandomState(case["seed"]).uniform(0, 2 * math.pi, len(f_in)))
+        got = np.asarray(ctx.lib(fq.calc_smooth_fa_spectrum, f_in, c * ph, targets, band=b))
+        ctx.close(got, np.full(m, c), 2 * r.rel * c, "constant spectrum not reproduced (%d x %d)" % (nf, m))
+    ctx.equal(spec, spec_before, "amplitude input mutated")
+    ctx.equal(freqs, freqs_before, "frequency input mutated")
+    ctx.equal(targets, t_before, "target input mutated")
+    if obj is not None and case.get("bw") and bool(np.all(np.diff(targets) >= 0)):
+        _mid_bandwidth(ctx, obj, key)
+    return r
+
+
+def _mid_reclen(case, ctx):
+    """Record-length ladder: the object with every smoothing setting at its default (50 points on 0.1-30 Hz, band 40), its
+    bandwidth limits, then matrix / direct form on a sub-set of those targets."""
+    x, sig = _mid_signal(ctx, case)
+    sm = np.array(ctx.lib(lambda: sig.smooth_fa_spectrum))
+    freqs, spec = _mid_fas(ctx, sig, case)
+    nf = len(freqs) - 1
+    targets = np.array(ctx.lib(lambda: sig.smooth_fa_freqs), dtype=float)
+    ctx.check(targets.shape == (50,) and abs(targets[0] - 0.1) <= 1e-12 and abs(targets[-1] - 30) <= 3e-11 and bool(np.all(np.diff(targets) > 0)),
+              "default smoothing frequencies are not 50 ascending points on [0.1, 30]")
+    key = "%s:%s" % (gen.run_seed(), case["seed"])
+    _mid_classes(ctx, case, nf, 50)
+    ctx.cls("form=O-default")
+    r = _mid_reference(freqs, spec, targets, 40, key)
+    _mid_check_smooth(ctx, sm, r, "Signal.smooth_fa_spectrum (record of %d samples, %d Fourier frequencies, default settings)" % (case["npts"], nf))
+    _mid_bandwidth(ctx, sig, key)
+    ctx.equal(np.asarray(sig.values), x, "record changed by smoothing")
+    k = int(min(12, max(3, 6e5 // nf)))
+    sub = np.array(refm.sample_indices(50, k, key + ":sub"), dtype=int)
+    t_sub = targets[sub]
+    b = case["b"]
+    mat = ctx.lib(fq.calc_smoothing_matrix_konno_1998, freqs, t_sub, band=b)
+    r2 = _mid_check_matrix(ctx, mat, freqs, spec, t_sub, b, key, "smoothing matrix (%d x %d)" % (nf, k))
+    via = ctx.lib(fq.calc_smooth_fa_spectrum_w_custom_matrix, sig, mat)
+    _mid_check_smooth(ctx, via, r2, "matrix form (%d x %d)" % (nf, k))
+    got = ctx.lib(fq.calc_smooth_fa_spectrum, freqs, spec, t_sub, band=b)
+    _mid_check_smooth(ctx, got, r2, "calc_smooth_fa_spectrum (%d Fourier frequencies x %d targets, band=%r)" % (nf, k, b))
+    if b == 40:
+        ctx.close(np.asarray(got), sm[sub], 2 * r.rel * sm[sub], "array level vs object level at the same targets")
+
+
+def _mid_enum(tier, shard, nshards):
+    th = tier == "thorough"
+    tg = "c07-T" if th else "c07-q"
+    cases = []
+    rot = _hh(gen.run_seed(), tg, "rot") % 6
+
+    def add(kind, **kw):
+        i = len(cases)
+        seed = _mid_seed(tg + ":" + kind, i)
+        c = {"kind": kind, "seed": seed, "dt": _MID_DTS[seed % len(_MID_DTS)], "acc": bool((seed >> 3) % 2),
+             "b": _MID_BANDS[(seed >> 5) % len(_MID_BANDS)], "omit_band": bool((seed >> 9) % 2)}
+        c.update(kw)
+        cases.append(c)
+
+    # (a) record length, default padding, default smoothing settings
+    top = 2000000 if th else 300000
+    for n in sorted(set(gen.size_ladder(2000, top, 24 if th else 8, tg + ":reclen", mined_limit=8 if th else 3)) | {top}):
+        add("reclen", npts=int(n), nfft=None)
+    # (b) number of Fourier frequencies (explicit transform length), few targets
+    top = 600000 if th else 150000
+    for nf in sorted(set(gen.size_ladder(1000, top, 24 if th else 10, tg + ":nfreq", mined_limit=8 if th else 4)) | {top}):
+        i = len(cases)
+        nfft = 2 * (int(nf) + 1)
+        m = _hint(3, max(3, min(24, int(1.0e6 // nf))), tg, "m", i)
+        d = (i + rot) % 3
+        add("nfreq", npts=_hint(nfft // 2 + 1, nfft, tg, "npts", i), nfft=nfft, m=m, tstyle=["log", "lin", "log", "grid"][i % 4],
+            zero=bool(i % 2), forms=["M", "C", ["D", "Dpos"][i % 2], "alias", ["O-set", "O-ctor", "O-gen"][d]], const=True)
+    # (c) number of smoothing targets
+    ms = sorted(set(gen.ladder(1, 20000 if th else 5000, 30 if th else 14, tg + ":ntarget")) | {20000 if th else 5000})
+    for m in ms:
+        i = len(cases)
+        nf = _hint(120, 900, tg, "nf", i)
+        nfft = 2 * (nf + 1)
+        d = (i + rot) % 3
+        # the two largest target sets stay ascending (the bandwidth limits are checked on ascending sets only)
+        style = ["log", "lin"][i % 2] if m >= ms[-2] else ["log", "lin", "log", "grid", "shuffled"][i % 5]
+        add("ntarget", npts=_hint(nfft // 2 + 1, nfft, tg, "npts", i), nfft=nfft, m=int(m), tstyle=style,
+            zero=bool(i % 2), forms=["M", "C", ["D", "Dpos"][i % 2], "alias", ["O-set", "O-ctor", "O-gen"][d]], const=True, bw=True)
+    # (d) default targets = the Fourier frequencies themselves (square matrix)
+    top = 7000 if th else 4000
+    for nf in sorted(set(gen.ladder(300, top, 12 if th else 4, tg + ":square")) | {top}):
+        i = len(cases)
+        nfft = 2 * (int(nf) + 1)
+        forms = ["M", "C", "D"] + (["O-set"] if nf <= 1500 else [])
+        if nf == top and not th:  # 1.6e7 pairs: one of the two forms, by seed
+            forms = ["M", "C"] if rot % 2 else ["D"]
+        add("square", npts=_hint(nfft // 2 + 1, nfft, tg, "npts", i), nfft=nfft, m=None, zero=bool(i % 2), forms=forms)
+    for i, c in enumerate(cases):
+        if i % nshards == shard:
+            yield c
+
+
+@enum_clause(CLAUSES, "mid-range", _mid_enum,
+             rule="one size dimension at a time, one size per logarithmic bin placed by a hash of (VERIF_SEED, tag) plus sizes aimed at the "
+                  "integer literals of the source under test: (a) record length 2 000..300 000 (thorough 2e6) with default padding and "
+                  "default smoothing settings; (b) number of Fourier frequencies 1 000..150 000 (thorough 6e5; explicit transform length, "
+                  "3..24 targets); (c) number of targets 1..5 000 (thorough 20 000; 120..900 Fourier frequencies); (d) default targets = "
+                  "the Fourier frequencies, n_f 300..4 000 (thorough 7 000). Seeded record, band from {40, 20, 67.5, 5, 100, 31, 12.25}, "
+                  "log / linear / on-grid / shuffled targets, with / without the 0 Hz bin",
+             oracle="reference model in two layers: float64 per-target evaluation of the statement for ALL targets and ALL matrix entries "
+                    "(tolerance 2 x (rel(n_f) + conditioning bound)), long-double reference on a hash-chosen sample of targets (first, last, "
+                    "next to multiples of 2^k, arbitrary; tolerance rel(n_f) + conditioning bound) which also guards the float64 layer; "
+                    "matrix: shape, finite, >= 0, column sums 1; matrix form, direct form (keyword / positional / deprecated alias) and "
+                    "object form (constructor / setters / gen_smooth_fa_spectrum) against the same reference; result within [min|A|, "
+                    "max|A|]; constant spectrum reproduced; inputs not mutated; bandwidth limits of the object's spectrum by front / back "
+                    "scan (1e-9 margin filter)",
+             exhaustive_note="all listed sizes", quick_shards=4)
+def mid_range(case, ctx):
+    if case["kind"] == "reclen":
+        _mid_reclen(case, ctx)
+    else:
+        _mid_eval(case, ctx)
+
+
+# ---------------------------------------------------------------------------
+# products n_f x m
+
+
+def _mid_products_enum(tier, shard, nshards):
+    th = tier == "thorough"
+    tg = "c07-T" if th else "c07-q"
+    hi = 6e7 if th else 3e7
+    cnt = 20 if th else 10
+    splits = [("many-freqs", (20000, 500000 if th else 150000), (1, 3000)),
+              ("many-targets", (20, 12000), (500, 20000 if th else 5000))]
+    off = _hh(gen.run_seed(), tg, "rot") % 6
+    cases = []
+    for si, (name, ar, br) in enumerate(splits):
+        pairs = sorted(gen.product_pairs(1e5, hi, cnt, ar, br, tg + ":prod:" + name), key=lambda p: -p[0] * p[1])
+        for rank, (nf, m) in enumerate(pairs):
+            p = nf * m
+            d = _DIRECT_FORMS[(rank + si + off) % 6]
+            if th or p <= 4e6:
+                forms = ["M", "C", d, _DIRECT_FORMS[(rank + si + off + 3) % 6]] if p <= 1e6 else ["M", "C", d]
+            elif (rank + si + off) % 2 == 1:
+                forms = [d]
+            else:
+                forms = ["M", "C"]
+            seed = _mid_seed(tg + ":prod:" + name, rank)
+            nfft = 2 * (int(nf) + 1)
+            cases.append({"kind": "prod-" + name, "seed": seed, "dt": _MID_DTS[seed % len(_MID_DTS)], "acc": bool((seed >> 3) % 2),
+                          "b": _MID_BANDS[(seed >> 5) % len(_MID_BANDS)], "omit_band": bool((seed >> 9) % 2),
+                          "npts": _hint(nfft // 2 + 1, nfft, tg, "npts", name, rank), "nfft": nfft, "m": int(m),
+                          "tstyle": ["log", "lin", "log", "grid", "shuffled"][(rank + si) % 5], "zero": bool((rank + si) % 2),
+                          "forms": forms, "const": p <= 1e6, "bw": p <= 4e6})
+    cases.sort(key=lambda c: -(c["nfft"] // 2 - 1) * c["m"])
+    for i, c in enumerate(cases):
+        if i % nshards == shard:
+            yield c
+
+
+@enum_clause(CLAUSES, "mid-range-products", _mid_products_enum,
+             rule="products n_f x m of 1e5..3e7 (thorough 6e7), one per logarithmic bin (hash-placed) plus products just above the integer "
+                  "literals of the source under test, in two splits: many Fourier frequencies (20 000..150 000; thorough 500 000) x few "
+                  "targets (1..3 000) and few frequencies (20..12 000) x many targets (500..5 000; thorough 20 000); same records, bands "
+                  "and target styles as `mid-range`. Quick tier: products <= 4e6 run the matrix form, the custom-matrix form and one "
+                  "direct / object entry point (rotating over six spellings); products above 4e6 alternate down the ladder between "
+                  "(matrix + custom-matrix) and (one direct / object entry point), opposite phase in the two splits (so every bin has "
+                  "both, in different splits); thorough: everything everywhere",
+             oracle="as `mid-range`: all targets and all matrix entries against the float64 per-target evaluation, a hash-chosen sample "
+                    "against long double",
+             exhaustive_note="all listed products", quick_shards=4)
+def mid_range_products(case, ctx):
+    _mid_eval(case, ctx)
+
+
+# ---------------------------------------------------------------------------
+# option crosses (moderate size)
+
+_OPT_BANDS = ["omit", 40, 17, 62.5]
+
+
+def _mid_options_enum(tier, shard, nshards):
+    th = tier == "thorough"
+    tg = "c07-T" if th else "c07-q"
+    i = 0
+    reps = 3 if th else 1
+    for rep in range(reps):
+        for acc in (False, True):
+            for zero in (True, False):
+                for deft in (False, True):
+                    for band in _OPT_BANDS:
+                        for sk in ("complex", "abs", "signed"):
+                            if i % nshards == shard:
+                                seed = _mid_seed(tg + ":opt", i)
+                                nf = _hint(80, 1200 if th else 200, tg, "opt-nf", i)
+                                nfft = 2 * (nf + 1)
+                                yield {"kind": "options", "seed": seed, "dt": _MID_DTS[seed % len(_MID_DTS)], "acc": acc, "zero": zero,
+                                       "b": 40 if band == "omit" else band, "omit_band": band == "omit", "speckind": sk,
+                                       "npts": _hint(nfft // 2 + 1, nfft, tg, "opt-npts", i), "nfft": nfft,
+                                       "m": None if deft else _hint(20, 800 if th else 120, tg, "opt-m", i),
+                                       "tstyle": ["log", "lin", "grid", "shuffled"][i % 4]}
+                            i += 1
+
+
+@enum_clause(CLAUSES, "mid-range-options", _mid_options_enum,
+             rule="full cross of Signal / AccSignal x with / without the 0 Hz bin x explicit / default (None) targets x band {omitted, 40, "
+                  "17, 62.5} x spectrum handed over as complex / magnitudes / magnitudes with random signs (96 cases; thorough three "
+                  "repetitions with other sizes up to 1 200 x 800), 80..200 Fourier frequencies x 20..120 targets; in every case ALL entry points: "
+                  "calc_smooth_fa_spectrum (keyword, positional), the deprecated alias, the matrix (keyword / positional) and the "
+                  "custom-matrix form, the object through its constructor (smooth_fa_freqs=, smooth_freq_range=, both), both setters, "
+                  "set_smooth_fa_frequecies_by_range, gen_smooth_fa_spectrum (positional / keyword, with / without frequencies) and "
+                  "generate_smooth_fa_spectrum",
+             oracle="as `mid-range` (float64 evaluation of all targets + long-double sample); the object's spectrum must be the weighted "
+                    "mean at the frequencies the object reports",
+             exhaustive_note="the full cross of the listed option values", quick_shards=4)
+def mid_range_options(case, ctx):
+    x, sig = _mid_signal(ctx, case)
+    freqs, spec = _mid_fas(ctx, sig, case)
+    fpos = freqs[1:]
+    nf = len(fpos)
+    deft = case["m"] is None
+    targets = np.array(fpos) if deft else _mid_targets(fpos, case["m"], case["seed"], case["tstyle"])
+    m = len(targets)
+    b, omit, zero = case["b"], case["omit_band"], case["zero"]
+    key = "%s:%s" % (gen.run_seed(), case["seed"])
+    _mid_classes(ctx, case, nf, m)
+    ctx.cls("band=omitted" if omit else "band=%r" % b, "targets=default" if deft else "targets=explicit", "spec=" + case["speckind"],
+            "zero-bin" if zero else "no-zero-bin", "AccSignal" if case["acc"] else "Signal")
+    rs = np.random.RandomState(case["seed"])
+    if case["speckind"] == "complex":
+        sv = spec
+    elif case["speckind"] == "abs":
+        sv = np.abs(spec)
+    else:
+        sv = np.abs(spec) * rs.choice([-1.0, 1.0], len(spec))
+    f_in = freqs if zero else fpos
+    s_in = sv if zero else sv[1:]
+    t_in = None if deft else targets
+    # matrix: keyword, positional, (omitted band)
+    if omit:
+        mat = ctx.lib(fq.calc_smoothing_matrix_konno_1998, f_in) if deft else ctx.lib(fq.calc_smoothing_matrix_konno_1998, f_in, t_in)
+    else:
+        mat = ctx.lib(fq.calc_smoothing_matrix_konno_1998, f_in, t_in, band=b)
+    r = _mid_check_matrix(ctx, mat, freqs, spec, targets, b, key, "smoothing matrix")
+    mat2 = ctx.lib(fq.calc_smoothing_matrix_konno_1998, f_in, t_in, b)
+    ctx.close(np.asarray(mat2), np.asarray(mat), 4 * EPS * np.asarray(mat), "smoothing matrix: positional vs keyword arguments")
+    via = ctx.lib(fq.calc_smooth_fa_spectrum_w_custom_matrix, sig, mat)
+    _mid_check_smooth(ctx, via, r, "matrix form")
+    # array level
+    D = fq.calc_smooth_fa_spectrum
+    A = fq.generate_smooth_fa_spectrum
+    calls = [("calc_smooth_fa_spectrum(f, A, T, b)", lambda: D(f_in, s_in, t_in, b)),
+             ("calc_smooth_fa_spectrum(f, A, smooth_fa_frequencies=T, band=b)", lambda: D(f_in, s_in, smooth_fa_frequencies=t_in, band=b)),
+             ("calc_smooth_fa_spectrum(fa_frequencies=, fa_spectrum=, band=, smooth_fa_frequencies=)",
+              lambda: D(band=b, smooth_fa_frequencies=t_in, fa_spectrum=s_in, fa_frequencies=f_in)),
+             ("generate_smooth_fa_spectrum(T, f, A, band=b)", lambda: A(t_in, f_in, s_in, band=b)),
+             ("generate_smooth_fa_spectrum(T, f, A, b)", lambda: A(t_in, f_in, s_in, b))]
+    if deft:
+        calls.append(("calc_smooth_fa_spectrum(f, A, band=b)", lambda: D(f_in, s_in, band=b)))
+    if omit:
+        calls.append(("calc_smooth_fa_spectrum(f, A, T)", lambda: D(f_in, s_in, t_in)))
+        calls.append(("generate_smooth_fa_spectrum(T, f, A)", lambda: A(t_in, f_in, s_in)))
+        if deft:
+            calls.append(("calc_smooth_fa_spectrum(f, A)", lambda: D(f_in, s_in)))
+    for what, fn in calls:
+        _mid_check_smooth(ctx, ctx.lib(fn), r, what)
+    # object level
+    for form in ("O-ctor", "O-set", "O-gen"):
+        got, o = _mid_direct(ctx, form, case, x, sig, freqs, spec, targets, b, zero, deft)
+        _mid_check_smooth(ctx, got, r, "Signal.smooth_fa_spectrum [%s, band %s]" % (form, "omitted" if omit else repr(b)))
+    # gen_smooth_fa_spectrum(smooth_fa_freqs=T) with the band left at its default
+    _, o = _mid_signal(ctx, case, x)
+    ctx.lib(o.gen_smooth_fa_spectrum, smooth_fa_freqs=np.array(targets))
+    r40 = r if b == 40 else _mid_reference(freqs, spec, targets, 40, key, ld_count=6)
+    _mid_check_smooth(ctx, ctx.lib(lambda: o.smooth_fa_spectrum), r40, "Signal.smooth_fa_spectrum after gen_smooth_fa_spectrum(smooth_fa_freqs=T)")
+    # constructor with a non-default range / with both / set_smooth_fa_frequecies_by_range
+    lo = float(fpos[0] * 10.0 ** rs.uniform(-0.3, 1.0))
+    hi_ = float(lo * 10.0 ** rs.uniform(0.3, 2.0))
+    npts_r = int(rs.randint(2, 120))
+    for how in ("range", "both", "by_range"):
+        if how == "range":
+            _, o = _mid_signal(ctx, case, x, smooth_freq_range=(lo, hi_))
+            want_n = 50
+        elif how == "both":
+            _, o = _mid_signal(ctx, case, x, smooth_freq_range=(lo, hi_), smooth_fa_freqs=np.array(targets))
+            want_n = None
+        else:
+            _, o = _mid_signal(ctx, case, x)
+            ctx.lib(lambda: o.smooth_fa_spectrum)  # something cached at the default frequencies first
+            ctx.lib(o.set_smooth_fa_frequecies_by_range, (lo, hi_), npts_r)
+            want_n = npts_r
+        band_now = 40
+        if not omit:
+            ctx.lib(o.gen_smooth_fa_spectrum, band=b)
+            band_now = b
+        fr = np.array(ctx.lib(lambda: o.smooth_fa_freqs), dtype=float)
+        if want_n is not None:
+            ctx.shape(fr, (want_n,), "smoothing frequencies set by range (%s)" % how)
+            ctx.check(abs(fr[0] - lo) <= 1e-11 * lo and abs(fr[-1] - hi_) <= 1e-11 * hi_ and bool(np.all(np.diff(fr) > 0)),
+                      "smoothing frequencies set by range (%s): not an ascending grid on [%r, %r]" % (how, lo, hi_))
+        got = ctx.lib(lambda: o.smooth_fa_spectrum)
+        if fr.shape == targets.shape and np.array_equal(fr, targets):
+            rr = r if band_now == b else r40
+        else:
+            ctx.check(fr.ndim == 1 and len(fr) >= 1 and bool(np.all(fr > 0)) and bool(np.all(np.isfinite(fr))), "smooth_fa_freqs of the object (%s): %r" % (how, fr[:4]))
+            rr = _mid_reference(freqs, spec, fr, band_now, key, ld_count=6)
+        _mid_check_smooth(ctx, got, rr, "Signal.smooth_fa_spectrum [constructor / range: %s, band %s]" % (how, "omitted" if omit else repr(b)))
+
+
+# ---------------------------------------------------------------------------
+# histories at mid-range size
+
+
+def _mid_history_enum(tier, shard, nshards):
+    th = tier == "thorough"
+    tg = "c07-T" if th else "c07-q"
+    pairs = gen.product_pairs(1.5e5, 1.2e7 if th else 3e6, 12 if th else 5, (300, 60000), (8, 2500), tg + ":hist")
+    for i, (nf, m) in enumerate(sorted(pairs, key=lambda p: -p[0] * p[1])):
+        if i % nshards != shard:
+            continue
+        seed = _mid_seed(tg + ":hist", i)
+        nfft = 2 * (int(nf) + 1)
+        yield {"kind": "history", "seed": seed, "dt": _MID_DTS[seed % len(_MID_DTS)], "acc": bool((seed >> 3) % 2),
+               "b": [20, 67.5, 5, 100, 31, 12.25][(seed >> 5) % 6], "npts": _hint(nfft // 2 + 1, nfft, tg, "hist-npts", i), "nfft": nfft,
+               "m": int(m), "tstyle": ["log", "lin", "grid"][i % 3]}
+
+
+@enum_clause(CLAUSES, "mid-range-history", _mid_history_enum,
+             rule="one object at products n_f x m of 1.5e5..3e6 (thorough 1.2e7; n_f 300..60 000, m 8..2 500): read at targets T1 (band 40) "
+                  "-> other targets of the same length -> read (same band) -> gen_smooth_fa_spectrum(band=b) -> read -> "
+                  "gen_smooth_fa_spectrum(other targets of the same length, band=b) -> read -> generate_smooth_fa_spectrum(band=b) again "
+                  "-> read -> targets of another length -> read (band back to 40) -> reset_values (another record of the same length; "
+                  "the spectrum falls back to the default padding) -> read (same targets, same band) -> fresh object -> "
+                  "set_smooth_fa_frequecies_by_range -> read -> bandwidth limits",
+             oracle="every read against the float64 evaluation of all targets + a long-double sample, for the spectrum, targets and band "
+                    "in force at that moment; history object vs fresh object",
+             exhaustive_note="all listed products", quick_shards=4)
+def mid_range_history(case, ctx):
+    x, sig = _mid_signal(ctx, case)
+    freqs, spec = _mid_fas(ctx, sig, case)
+    fpos = freqs[1:]
+    nf, m, b = len(fpos), case["m"], case["b"]
+    key = "%s:%s" % (gen.run_seed(), case["seed"])
+    _mid_classes(ctx, case, nf, m)
+    step = [0]
+
+    def read(o, fr, sp, tg, band, what):
+        step[0] += 1
+        got = ctx.lib(lambda: o.smooth_fa_spectrum)
+        ctx.equal(np.asarray(ctx.lib(lambda: o.smooth_fa_freqs)), tg, "smooth_fa_freqs at step %d (%s)" % (step[0], what))
+        r = _mid_reference(fr, sp, tg, band, key, ld_count=6)
+        _mid_check_smooth(ctx, got, r, "Signal.smooth_fa_spectrum, step %d: %s (%d x %d)" % (step[0], what, len(fr) - 1, len(tg)))
+        return np.array(got)
+
+    t1 = _mid_targets(fpos, m, case["seed"], case["tstyle"])
+    ctx.lib(setattr, sig, "smooth_fa_freqs", np.array(t1))
+    read(sig, freqs, spec, t1, 40, "first read")
+    t2 = _mid_targets(fpos, m, case["seed"] + 1, case["tstyle"])
+    ctx.lib(setattr, sig, "smooth_fa_frequencies", np.array(t2))
+    read(sig, freqs, spec, t2, 40, "after new targets of the same length (same band)")
+    ctx.lib(sig.gen_smooth_fa_spectrum, band=b)
+    read(sig, freqs, spec, t2, b, "after gen_smooth_fa_spectrum(band=%r)" % b)
+    t3 = _mid_targets(fpos, m, case["seed"] + 2, case["tstyle"])
+    ctx.lib(sig.gen_smooth_fa_spectrum, smooth_fa_freqs=np.array(t3), band=b)
+    read(sig, freqs, spec, t3, b, "after gen_smooth_fa_spectrum(smooth_fa_freqs=<new targets of the same length>, band=%r)" % b)
+    ctx.lib(sig.generate_smooth_fa_spectrum, band=b)
+    read(sig, freqs, spec, t3, b, "after generate_smooth_fa_spectrum(band=%r) (repeated)" % b)
+    t4 = _mid_targets(fpos, max(1, (2 * m) // 3), case["seed"] + 3, "log")
+    ctx.lib(setattr, sig, "smooth_fa_freqs", np.array(t4))
+    read(sig, freqs, spec, t4, 40, "after %d new targets" % len(t4))
+    x2 = _mid_record(case["npts"], case["seed"] + 7)
+    ctx.lib(sig.reset_values, np.array(x2))
+    f2 = np.array(ctx.lib(lambda: sig.fa_freqs), dtype=float)
+    s2 = np.array(ctx.lib(lambda: sig.fa_spectrum))
+    fresh = ctx.lib(type(sig), x2, case["dt"])
+    ctx.equal(f2, np.asarray(fresh.fa_freqs), "Fourier frequencies after reset_values vs fresh object")
+    ctx.equal(s2, np.asarray(fresh.fa_spectrum), "Fourier spectrum after reset_values vs fresh object")
+    got_h = read(sig, f2, s2, t4, 40, "after reset_values (same targets, same band)")
+    ctx.lib(setattr, fresh, "smooth_fa_freqs", np.array(t4))
+    got_f = np.array(ctx.lib(lambda: fresh.smooth_fa_spectrum))
+    ctx.close(got_h, got_f, 4 * refm.rel_for(len(f2)) * np.abs(got_f), "history object vs fresh object")
+    lo, hi_ = float(f2[1] * 3.0), float(f2[-1] * 0.8)
+    ctx.lib(sig.set_smooth_fa_frequecies_by_range, (lo, hi_), m)
+    t5 = np.array(ctx.lib(lambda: sig.smooth_fa_freqs), dtype=float)
+    ctx.check(t5.shape == (m,) and abs(t5[0] - lo) <= 1e-11 * lo and abs(t5[-1] - hi_) <= 1e-11 * hi_ and (m == 1 or bool(np.all(np.diff(t5) > 0))),
+              "set_smooth_fa_frequecies_by_range: not %d ascending points on [%r, %r]" % (m, lo, hi_))
+    read(sig, f2, s2, t5, 40, "after set_smooth_fa_frequecies_by_range")
+    _mid_bandwidth(ctx, sig, key)
